@@ -335,7 +335,7 @@ def run_scenario(sc):
         return run_sim(scenario, mk, max_vtime=sc.get("max_vtime", 3600.0), seed=sc.get("seed", 0))
     except SimDeadlock as e:
         CL = None
-        return {"id": sc["id"], "ok": False, "error": "SimDeadlock: " + str(e)}
+        return {"id": sc["id"], "ok": False, "error": "SimDeadlock: " + str(e), "stacks": getattr(e, "stacks", [])}
     except Exception as e:  # noqa: BLE001
         CL = None
         return {"id": sc["id"], "ok": False, "error": type(e).__name__ + ": " + str(e),
